@@ -239,8 +239,21 @@ fn run_history(hist: &[Op], cap: usize) -> (RunOut, Model) {
             match *op {
                 Op::Create(k) => {
                     let c = conn.clone();
+                    // every other stream gets its (equal) rule by another route: parsed from a
+                    // string with the keys in another order instead of built
+                    let alt = streams.len() % 2 == 1;
                     let s = w.complete("create", async move {
                         match rule(k) {
+                            Some(r) if alt => {
+                                let text = match k {
+                                    0 => "member='S1',interface='a.b',type='signal'",
+                                    _ => "interface='a.b',type='signal'",
+                                };
+                                // (whether the string form reads back as the same rule is C22's
+                                // business: fall back to the built rule if it does not)
+                                let parsed = MatchRule::try_from(text).map(|p| p.into_owned()).ok().filter(|p| *p == r).unwrap_or(r);
+                                MessageStream::for_match_rule(parsed, &c, Some(cap)).await
+                            }
                             Some(r) => MessageStream::for_match_rule(r, &c, Some(cap)).await,
                             None => Ok(MessageStream::from(&c)),
                         }
